@@ -14,7 +14,8 @@
    functions by definition). *)
 From Coq Require Import List NArith Bool.
 From Mdns Require Import Bytes Rec ParamsRegistry Names WireOut Registry RegistryDaemon RegistrySpec
-     RegistryParamsPinned RegistryProofs RegistryDaemonProofs RegistryLiftProofs RegistryWitnesses RegistryWitnessProofs.
+     RegistryParamsPinned RegistryProofs RegistryDaemonProofs RegistryLiftProofs RegistryHistoryProofs RegistryWitnesses
+     RegistryWitnessProofs.
 Import ListNotations.
 Open Scope N_scope.
 
@@ -183,6 +184,57 @@ Theorem C07_probes_started_by_resend_are_sent :
     (1001993, true, false, false); (1002243, true, false, false); (1002493, true, false, false) ].
 Proof. exact w_resend_probes_accepted. Qed.
 
+(* ---- round 4: EVERY first announcement queues its second one ------------------------------------------
+   For every state (hence every history): each packet register_service sends, each announcement
+   add_interface makes and each response the probing handler sends when probes complete goes out on
+   an interface i for which RegisterResend(full, i) is in the queue at now + 1000 afterwards. *)
+Theorem C07_registration_queues_second_announcement : forall st s now js,
+  let '(st1, os, _) := register_service st s now js in
+  forall o, In o os -> is_send o ->
+  exists i full, send_if o = Some i /\ In (now + 1000, RegisterResend full i) (d_retrans st1).
+Proof. exact register_service_queues_second. Qed.
+
+Theorem C07_added_interface_queues_second_announcement : forall st r now js,
+  let '(st1, os, _) := add_interface st r now js in
+  forall o, In o os -> is_send o ->
+  exists i full, send_if o = Some i /\ In (now + 1000, RegisterResend full i) (d_retrans st1).
+Proof. exact add_interface_queues_second. Qed.
+
+(* ... for the probing handler at the level of a whole iteration: the entry is in the queue that the
+   iteration leaves behind (st3, js3 = state and jitter values when the probing handler starts) *)
+Theorem C07_completed_probe_queues_second_announcement : forall st it st' os js,
+  iterate st it = (st', os, Running, js) ->
+  forall st3 js3, d_dead st = false ->
+  (let now := it_now it in
+   let '(st1, _, js1) := handle_dgrams st (filter (fun g => g_v4 g) (it_dgrams it) ++ filter (fun g => negb (g_v4 g)) (it_dgrams it)) now (it_jitter it) in
+   let '(st2, _, js2) := exec_calls st1 (it_calls it) now js1 in
+   let '(s3, _, j3) := retransmit st2 now js2 in st3 = s3 /\ js3 = j3) ->
+  forall o, In o (snd (fst (probing_handler st3 (it_now it) js3))) -> resp_send o ->
+  exists i full, send_if o = Some i /\ In (it_now it + 1000, RegisterResend full i) (d_retrans st').
+Proof. exact probing_announcements_queued. Qed.
+
+(* ... and the queued entry is run in the first iteration at or after its time: no iteration that
+   leaves the daemon running leaves an entry behind that is due at or before its `now` (any state,
+   hence all histories; the same for the repeat of a goodbye) *)
+Theorem C07_no_overdue_queue_entry : forall st it st' os js,
+  iterate st it = (st', os, Running, js) -> Forall (fun e => it_now it < fst e) (d_retrans st').
+Proof. exact iterate_queue_future. Qed.
+
+(* non-vacuity: the witness runs have these queue entries *)
+Example C07_second_announcement_queue_example :
+  queue_times (state_after w_added_twice_ifs w_added_twice_its 1) = [1001000] /\
+  queue_times (state_after w_added_twice_ifs w_added_twice_its 4) = [1003600] /\
+  queue_times (state_after w_added_twice_ifs w_added_twice_its 5) = [].
+Proof. exact w_added_twice_queue. Qed.
+
+(* NOT proved over histories (partial): that the second announcement is actually SENT (it is when the
+   service is still registered, the interface and its registry still exist and the records are still
+   active - register_resend re-runs the announcement attempt); "no response speaks for a unique
+   record whose owner has not been probed three times since the interface (re)appeared" and "every
+   registration reaches Announced in bounded time on never-late schedules" stay at the level of the
+   registry machine (C07_probe_spacing_all_schedules, C07_three_probes_exact, C07_reaches_active_...)
+   and of the executed monitor. *)
+
 (* History level, full statement (validated on every generated history by running chk_C07 on the
    model's own observation, NOT proved):
      forall ifs its, well-formed history -> no VFail in chk_C07 g7_init (d_init ifs) its (model_obs (d_init ifs) its).
@@ -215,6 +267,11 @@ Print Assumptions C07_silent_until_activated.
 Print Assumptions C07_announce_requires_active.
 Print Assumptions C07_no_answer_unless_announced.
 Print Assumptions C07_registration_is_joins.
+Print Assumptions C07_registration_queues_second_announcement.
+Print Assumptions C07_added_interface_queues_second_announcement.
+Print Assumptions C07_completed_probe_queues_second_announcement.
+Print Assumptions C07_no_overdue_queue_entry.
+Print Assumptions C07_second_announcement_queue_example.
 Print Assumptions C07_three_probes_on_late_schedules_refuted.
 Print Assumptions C07_record_joining_a_probe_refuted.
 Print Assumptions C07_reprobe_after_host_rename.
